@@ -73,7 +73,9 @@ def prog_edit(tid, seed):
             if k != '__fn_or_cls__'}
     ids = [e.sequence_id for v in cfg.__argument_history__.values() for e in v]
     ids_sorted = sorted(ids)
-    return ['edit', hist, [inside, still, after], ids_sorted == sorted(set(ids)), ids]
+    order = [k for _, k in sorted((e.sequence_id, k) for k, v in cfg.__argument_history__.items()
+                                  if k != '__fn_or_cls__' for e in v)]
+    return ['edit', hist, [inside, still, after], ids_sorted == sorted(set(ids)), ids, order]
   return run
 
 
@@ -121,7 +123,7 @@ def strip_ids(res):
   """Absolute sequence ids depend on the interleaving; everything else must not."""
   if res and res[0] == 'edit':
     ids = res[4]
-    return res[:4] + [[a < b for a, b in zip(ids, ids[1:])] == sorted([a < b for a, b in zip(ids, ids[1:])]), len(ids)]
+    return res[:4] + [[a < b for a, b in zip(ids, ids[1:])] == sorted([a < b for a, b in zip(ids, ids[1:])]), len(ids)] + res[5:]
   return res
 
 
@@ -152,6 +154,48 @@ def run_scheduled(kinds, seed, decide):
         all_ids += res[4]
       out.append(strip_ids(res))
   return out, s.step, all_ids, s.trace_log
+
+
+# the programs as operation lists of the Lean thread model (Model/Threads.lean) ---------------
+
+MODEL_OPS = {
+    'build': [['enterBuild'], ['exitBuild'], ['enterBuild'], ['enterBuild'], ['exitBuild'], ['readInBuild']],
+    'edit': [['log', 'p'], ['log', 'q'], ['suspend'], ['log', 'r'], ['readTracking'], ['suspend'], ['log', 'p'],
+             ['resume'], ['readTracking'], ['resume'], ['log', 'q'], ['log', 'r'], ['readTracking']],
+    'copy': [],
+    'sig': [],
+}
+
+
+def model_request(kinds, seed):
+  """A seeded interleaving of the threads' operation lists."""
+  r = random.Random(seed ^ 0x5EED)
+  queues = [[[tid] + op for op in MODEL_OPS[k]] for tid, k in enumerate(kinds)]
+  sched_ = []
+  while any(queues):
+    q = r.choice([q for q in queues if q])
+    sched_.append(q.pop(0))
+  return {'p': 'threads', 'threads': len(kinds), 'sched': sched_}
+
+
+def real_as_model_outputs(kind, res):
+  """What the model's operations return, read off a thread's real result."""
+  if not res or res[0] == 'raised':
+    return ['raised']
+  if kind == 'build':
+    return ['ok', 'ok', 'ok', 'nested-rejected' if res[2] == 'nested-rejected' else 'ok', 'ok', bool(res[3])]
+  if kind == 'edit':
+    inside, still, after = res[2]
+    logged = list(res[6]) if len(res) > 6 else None
+    return {'flags': [inside, still, after], 'logged': logged}
+  return []
+
+
+def model_outputs_view(kind, outs):
+  if kind == 'edit':
+    return {'flags': [o for o in outs if isinstance(o, bool)],
+            'logged': [o[1] for o in outs if isinstance(o, list) and o[0] == 'logged']}
+  return outs
 
 
 def execute(case):
@@ -193,13 +237,24 @@ def execute(case):
       except Exception:
         pass
       fdl_history.set_tracking(True)
+    obs.setdefault('m_threads', [real_as_model_outputs(k, r) for k, r in zip(kinds, got)])
     if len(obs['mismatches']) > 3:
       break
-  return obs, None
+  obs['kinds'] = kinds
+  return obs, model_request(kinds, seed)
 
 
 def compare(real, model):
-  return []
+  if model is None or 'm_threads' not in real:
+    return []
+  diffs = []
+  if not model.get('unique') or not model.get('per_thread_increasing'):
+    diffs.append(('model sequence numbers', 'n/a', model))
+  for tid, (kind, r, m) in enumerate(zip(real['kinds'], real['m_threads'], model['out'])):
+    mv = model_outputs_view(kind, m)
+    if r != mv and r != ['raised']:
+      diffs.append((f'thread {tid} ({kind}) observations', r, mv))
+  return diffs
 
 
 def oracle(case, real):
